@@ -80,6 +80,10 @@ CHECKS['C08'] = dict(
     level='proof',
     text='Theorems in Coq over the reachable-state closure of the stream state machine (all histories): headers after trailers and informational responses after the final response are refused, the second header block is trailers, a stream opened as a client never sends a response / PUSH_PROMISE / ALTSVC, RequestSent only from idle, nothing but RST / WINDOW_UPDATE after the local end; the connection role gate (client cannot SEND_PUSH_PROMISE / SEND_ALTERNATIVE_SERVICE once open) from the regenerated table. Two clauses are refuted with witnesses (Properties/C08_refuted.v): DATA / END_STREAM before response headers is accepted on peer-opened streams (F-C08-2); an IDLE connection accepts SEND_ALTERNATIVE_SERVICE whatever its role (F-C08-3); plus F-C08-1 (server opens an even stream with send_headers). Send-heavy programs are compared with the model and judged by a per-stream monitor of accepted send operations.',
     design='7.C08', technique='Coq invariant via computed reachable-state closure + refutation witnesses + differential correspondence + runtime send-grammar monitor')
+CHECKS['C16'] = dict(
+    level='proof',
+    text='Theorems in Coq about H2Stream._track_content_length (translated from stream.py on every run and proved equal to the model step): for EVERY content-length n and EVERY chunking of the body into DATA frames of any non-negative sizes, DATA is accepted exactly while the payload total stays within n, and a message ended by a DATA frame is accepted if and only if the total equals n; without content-length nothing is checked; padding is never counted (for every payload / flow-controlled length); a response to HEAD expects an empty body whatever its content-length. Three clauses are refuted with witnesses in the model and replayed on the implementation (known findings): END_STREAM on HEADERS with non-zero content-length accepted (F-C16-1), mismatch undetected when the message is ended by trailers (F-C16-2), 204/304 with content-length ended by empty DATA rejected (F-C16-3); F-C16-4: HEAD request with trailers forgets the method. Directed programs over method x status x content-length x chunking x padding x END_STREAM placement are compared with the model and judged by an independent oracle.',
+    design='7.C16', technique='Coq theorems by induction over DATA chunk lists on a kernel translated from the source + refutation witnesses + differential correspondence + independent runtime oracle')
 NA_REASON = {}
 def main():
     checks = []
